@@ -10,11 +10,20 @@ their character codes (`_` = empty string); a separator as its character code.
                                         → W:<hex text>|werr:<kind>   R:ok <rows>|err:<kind>
                                           with readAll = 1:  R:ok <rows> A:<names>|<values> (or R:err:<kind>)
                                           with readAll = 2:  written through the front end TrackWriter.writeToCsv
+                                          with readAll = 3:  written by writeToFile(track, path) with default arguments
+  csvdir <geo> <idE> <idN> <idU> <idT> <sep> <h> <hdrR> <pfmt> <rfmt> <tracks> <srid>    tracks: `<rows>|<rows>…` (`_` = no row)
+       writeToCsv(collection, dir, format) then readFromCsv(dir, …) with the files listed in the order written
+                                        → W:<hex>|<hex>… R:ok <rows>|<rows>… (or werr:/err:)
+  wktfile <sep> <hdr> <hdrR> <quoted> <dq> <blank> <pw> <pu> <pt> <iu> <it> <d> <tracks>   tracks: `uid,tid,x:y|x:y…;…` (ids in hex)
+       the file a user writes with sep.join([...track.toWKT()...]) read by readFromWkt(path, pw, iu, it, sep, hdrR, doublequote=dq)
+                                        → W:<hex> R:ok uid,tid,x:y:z|…;… (uid / tid `-` when not read) | R:err:<kind>
+  gpxc <geo> <rfmt> <names> <tracks>    writeToGpx(collection, file): names `<hex>,…`, tracks `<rows>|<rows>…` → as `gpx`
        read rows: `xm/xd,ym/yd,zm/zd,Y,M,D,h,m,s,ms;…`
        names `<hex>,…`; values `v,…;…` per observation, v: `m/d` | `nan` | `inf` | `-inf` | `S<hex>`
   net  <sep> <h> <hdrR> <d> <posDir> <edges>     edges: `id,src,tgt,orient,x:y|x:y…;…` (ids in hex)
                                         → W:<hex> R:ok <edges> N:<nodes> | R:err:<kind>
-  wkt  <d> <pts>   pts: `x:y|x:y…`      → W:<hex> R:ok x:y:z|… | R:err:<kind>
+  wkt  <d> <pts>   pts: `x:y|x:y…` (x, y: `[-]mag`, `-0` the negative zero; the floats ±mag/10^d of any magnitude)
+                                        → W:<hex> R:ok x:y:z|… | R:err:<kind>
   gpx  <geo> <rfmt> <name> <rows>       → W:<hex> R:ok <track>|<track> | R:err:<kind>
   wktparse <hex text>                   → ok x:y:z|… | err:<kind>        (TrackReader.parseWkt on any text)
   gpxaf <geo> <rfmt> <name> <naf> <names> <rows>   the same with `af=True`: names `<hex>,…`, rows with af tokens -/
@@ -93,7 +102,7 @@ def rowOf? (naf : Nat) (s : String) : Option (Row × List AFVal) :=
 def sepOf? (s : String) : Option Char := s.toNat?.bind (fun n => if n < 128 ∧ n ≠ 10 then some (Char.ofNat n) else none)
 
 def ptOf? (s : String) : Option Pt :=
-  match (splitTok s ':').mapM String.toInt? with
+  match (splitTok s ':').mapM snum? with
   | some [x, y] => some (x, y)
   | _ => none
 
@@ -121,6 +130,7 @@ def handleCsv (geo ie iN iu it sep h hr pf rf naf rows srid names ra : String) :
         if ie < -1 ∨ iN < -1 ∨ iu < -1 ∨ it < -1 then "bad-request" else
         let f : CsvFmt := ⟨ie, iN, iu, it, sep⟩
         match (if ra == "2" then writeToCsv f (geo == 1) (tokenize pf) h (rws.map (fun x => x.1)) srid
+                 else if ra == "3" then writeToFileDefault (geo == 1) (tokenize pf) (rws.map (fun x => x.1)) srid
                  else writeToFile f (geo == 1) (tokenize pf) h naf rws srid names) with
         | .error e => s!"werr:{e} R:none"
         | .ok text =>
@@ -137,8 +147,65 @@ def handleCsv (geo ie iN iu it sep h hr pf rf naf rows srid names ra : String) :
     | _, _, _, _, _ => "bad-request"
   | _, _, _, _, _, _, _, _ => "bad-request"
 
+def trackOf? (s : String) : Option (List Row) :=
+  if s == "_" then some [] else ((splitTok s ';').mapM (rowOf? 0)).map (fun l => l.map (fun x => x.1))
+
+def handleCsvDir (geo ie iN iu it sep h hr pf rf tracks srid : String) : String :=
+  match geo.toNat?, ie.toInt?, iN.toInt?, iu.toInt?, it.toInt?, sepOf? sep, h.toNat?, hr.toNat? with
+  | some geo, some ie, some iN, some iu, some it, some sep, some h, some hr =>
+    match unhex? pf, unhex? rf, unhex? srid, (splitTok tracks '|').mapM trackOf? with
+    | some pf, some rf, some srid, some trks =>
+      if ie < -1 ∨ iN < -1 ∨ iu < -1 ∨ it < -1 then "bad-request" else
+      let f : CsvFmt := ⟨ie, iN, iu, it, sep⟩
+      match writeToCsvColl f (geo == 1) (tokenize pf) h trks srid with
+      | .error e => s!"werr:{e} R:none"
+      | .ok texts =>
+        let r := match readCsvDir f (tokenize rf) hr texts with
+          | .ok ts => "ok " ++ joinWith "|" (ts.map (fun (t : List RRow) => if t.isEmpty then "_" else joinWith ";" (t.map showRRow)))
+          | .error e => s!"err:{e}"
+        s!"W:{joinWith "|" (texts.map toHex)} R:{r}"
+    | _, _, _, _ => "bad-request"
+  | _, _, _, _, _, _, _, _ => "bad-request"
+
+def wtrackOf? (s : String) : Option (Str × Str × List Pt) :=
+  match splitTok s ',' with
+  | [u, t, g] => do
+    let u ← unhex? u
+    let t ← unhex? t
+    let g ← (splitTok g '|').mapM ptOf?
+    pure (u, t, g)
+  | _ => none
+
+def showOptStr : Option Str → String
+  | none => "-"
+  | some s => toHex s
+
 def handle (cmd : String) (args : List String) : String :=
   match cmd, args with
+  | "wktfile", [sep, hdr, hr, quoted, dq, blank, pw, pu, pt, iu, it, d, tracks] =>
+    match sepOf? sep, hdr.toNat?, hr.toNat?, quoted.toNat?, dq.toNat?, blank.toNat?, pw.toNat?, pu.toNat? with
+    | some sep, some hdr, some hr, some quoted, some dq, some blank, some pw, some pu =>
+      match pt.toNat?, iu.toInt?, it.toInt?, d.toNat?, (splitTok tracks ';').mapM wtrackOf? with
+      | some pt, some iu, some it, some d, some trks =>
+        if iu < -1 ∨ it < -1 then "bad-request" else
+        let text := wktFile sep (hdr == 1) (quoted == 1) (blank == 1) pw pu pt d trks
+        let r := match readWktFile ⟨pw, iu, it, sep, hr, dq == 1⟩ text with
+          | .ok ts => "ok " ++ joinWith ";" (ts.map (fun (t : WTrack) => s!"{showOptStr t.uid},{showOptStr t.tid},{joinWith "|" (t.pts.map showV3)}"))
+          | .error e => s!"err:{e}"
+        s!"W:{toHex text} R:{r}"
+      | _, _, _, _, _ => "bad-request"
+    | _, _, _, _, _, _, _, _ => "bad-request"
+  | "csvdir", [geo, ie, iN, iu, it, sep, h, hr, pf, rf, tracks, srid] => handleCsvDir geo ie iN iu it sep h hr pf rf tracks srid
+  | "gpxc", [geo, rf, names, tracks] =>
+    match geo.toNat?, unhex? rf, (splitTok names ',').mapM unhex?, (splitTok tracks '|').mapM trackOf? with
+    | some geo, some rf, some names, some trks =>
+      if names.length ≠ trks.length then "bad-request" else
+      let text := gpxBodyColl (names.zip (trks.map (fun (t : List Row) => t.map (fun r => (⟨r.x, r.y, r.z, r.t⟩ : GRow)))))
+      let r := match readGpx (tokenize rf) (geo == 1) text with
+        | .ok ts => "ok " ++ joinWith "|" (ts.map (fun (t : List RRow) => if t.isEmpty then "_" else joinWith ";" (t.map showRRow)))
+        | .error e => s!"err:{e}"
+      s!"W:{toHex text} R:{r}"
+    | _, _, _, _ => "bad-request"
   | "fix", [w, d, n] =>
     match w.toNat?, d.toNat?, snum? n with
     | some w, some d, some n =>
